@@ -26,6 +26,17 @@
    and replayed as a real sparse get / put / copy of a real sparse file with
    the server's page limit scaled to the case, plus unscaled cases with
    127..257 real extents against the real limit of 128.
+6. specs/SftpIO/FileObj.tla models SFTPClientFile as a state machine
+   (_offset with None while appending, append flag, bytes per character and
+   byte-order mark of the encoding; open modes r w a r+ w+ a+ x, then read /
+   write / seek / tell / truncate / stat in any order) next to a reference
+   byte-level file; TLC checks that server bytes and every returned value
+   agree, rejects "position by characters", "append keeps a concrete offset",
+   "read does not advance" and the pinned tree's failing read-to-end past the
+   end; sampled behaviours run on a real file object against the real server
+   in binary mode and in text mode with utf-8 (2/3/4-byte characters),
+   utf-16 / utf-32 with and without BOM, judged by an independent byte-level
+   reference.
 2. Behaviours sampled by TLC (-simulate) are replayed into the REAL client
    (SFTPClientFile.read/write, SFTPClient.get/put/copy) against a scripted
    SFTP server that holds every READ/WRITE and answers in the behaviour's
@@ -297,6 +308,92 @@ def sparse_replay(ctx, tables, rnd):
                     f'sparse sample too thin: {stats}')
 
 
+FO_CONSTS = dict(Widths='{1, 2, 3}', Boms='{0, 2}', MaxOps=3, MaxLen=12,
+                 PosByChars='FALSE', AppendTracks='FALSE',
+                 ReadNoAdvance='FALSE', ReadAllCrashes='FALSE')
+
+
+def fileobj_tlc(name, invs, view=True, workers=2, **kw):
+    """One TLC run of specs/SftpIO/FileObj.tla"""
+    sim_kw = {k: kw.pop(k) for k in ('simulate', 'depth', 'seed')
+              if k in kw}
+    d = dict(FO_CONSTS)
+    d.update(kw)
+    cfg = f'_c12_fo_{name}.cfg'
+    lines = ['CONSTANTS'] + [f'  {k} = {v}' for k, v in d.items()]
+    lines += ['SPECIFICATION Spec', 'CHECK_DEADLOCK FALSE']
+    if view:
+        lines.append('VIEW view')
+    lines += [f'INVARIANT {i}' for i in invs]
+    with open(os.path.join(SPEC, cfg), 'w') as f:
+        f.write('\n'.join(lines) + '\n')
+    try:
+        return tlc.run(SPEC, 'FileObj', cfg, f'c12_fo_{name}',
+                       workers=workers, timeout=1500, java_heap='3g',
+                       deadlock=False, **sim_kw)
+    finally:
+        tlc.cleanup(f'c12_fo_{name}')
+        os.remove(os.path.join(SPEC, cfg))
+
+
+def fileobj_replay(ctx, simdir, rnd):
+    """Part 6: behaviours of the SFTPClientFile state machine (FileObj.tla)
+    on a real file object against the real server, binary and text modes."""
+    from harness.drivers import sftp_tree, sftp_fileobj
+    behs, seen_b = [], set()
+    for _n, steps in tlc.read_sim_traces(simdir, 'tr_'):
+        case, ops = sftp_fileobj.split_behaviour(
+            [(st['lbl'], st) for _, st in steps])
+        key = json.dumps([case, [list(o[0]) for o in ops]], sort_keys=True)
+        if ops and key not in seen_b:
+            seen_b.add(key)
+            behs.append((case, ops))
+    ctx.require(len(behs) > 150, f'only {len(behs)} file object behaviours')
+    w = sftp_tree.TreeWorld()
+    hits = {}
+    stats = {'text_wide': 0, 'two_writes': 0, 'append': 0}
+    try:
+        for i, (case, ops) in enumerate(behs):
+            r = sftp_fileobj.run_behaviour(w, i, case, ops, rnd)
+            stats['text_wide'] += case['W'] > 1
+            stats['two_writes'] += sum(o[0][0] == 'write' for o in ops) >= 2
+            stats['append'] += case['mode'] in ('a', 'a+')
+            ctx.count(('fileobj', json.dumps(case, sort_keys=True),
+                       json.dumps(r['ops'])), nontrivial=len(ops) > 2)
+            if i % 131 == 17:
+                ctx.sample({'part': 'fileobj', 'case': case,
+                            'encoding': r['encoding'], 'trace': r['trace']})
+            rp = {'kind': 'fileobj', 'case': case, 'ops': r['ops'],
+                  'encoding': r['encoding'], 'block': r['block']}
+            for clause in sorted({c for c, _ in r['l1']}):
+                hits[clause] = hits.get(clause, 0) + 1
+                text = '; '.join(t for c, t in r['l1'] if c == clause)
+                if clause == 'ReadPastEnd':
+                    # finding: one signature
+                    if hits[clause] > 1:
+                        continue
+                    sig = {'module': 'FileObj', 'clause': clause}
+                else:
+                    if hits[clause] > 5:
+                        continue
+                    sig = {'module': 'FileObj', 'clause': clause,
+                           'case': case, 'ops': r['ops'],
+                           'encoding': r['encoding']}
+                ctx.violation(sig, f'{clause}: {text} [case={case} '
+                                   f'encoding={r["encoding"]} block='
+                                   f'{r["block"]} ops={r["ops"]}]', replay=rp)
+            if r['diverged'] and not r['l1']:
+                ctx.divergence(f'FileObj: {r["diverged"]} case={case} '
+                               f'ops={r["ops"]}')
+    finally:
+        w.close()
+    ctx.traces_validated(len(behs))
+    ctx.notes.append(f'file object behaviours replayed: {len(behs)} {stats}' +
+                     (f' monitor hits {hits}' if hits else ''))
+    ctx.require(stats['text_wide'] > 60 and stats['two_writes'] > 30,
+                f'file object sample too thin: {stats}')
+
+
 TRACE_CONSTS = dict(MaxN=1, Blocks='{1}', MaxReqs='{1}', Ops='{}',
                     SparseSet='{}', MaxAns=1, AllowErr='TRUE',
                     ByOffset='TRUE', Continue='TRUE', ExtendDst='TRUE')
@@ -470,6 +567,29 @@ def main(ctx):
     if ctx.replay_path:
         with open(ctx.replay_path) as f:
             rp = json.load(f)['replay']
+        if rp.get('kind') == 'fileobj':
+            from harness.drivers import sftp_tree, sftp_fileobj
+            import random as _r
+            w = sftp_tree.TreeWorld()
+            try:
+                ops = [(tuple(o), ['none'], []) for o in rp['ops']]
+                for seed in range(12):  # encoding / block are seeded choices
+                    r = sftp_fileobj.run_behaviour(w, seed, rp['case'], ops,
+                                                   _r.Random(seed))
+                    if r['l1'] or (r['encoding'] == rp['encoding'] and
+                                   r['block'] == rp['block']):
+                        break
+            finally:
+                w.close()
+            print('file object:', r['trace'], r['l1'])
+            ctx.count(('replay', ctx.replay_path))
+            for clause, text in r['l1']:
+                ctx.violation({'module': 'FileObj', 'clause': clause}
+                              if clause == 'ReadPastEnd' else
+                              {'module': 'FileObj', 'clause': clause,
+                               'case': rp['case'], 'ops': rp['ops'],
+                               'encoding': r['encoding']}, text, replay=rp)
+            return
         if rp.get('kind') == 'sparse':
             from harness.drivers import sftp_tree, sftp_sparse
             w = sftp_tree.TreeWorld()
@@ -631,6 +751,28 @@ def main(ctx):
                               seed=ctx.seed + 5, Emit='TRUE',
                               NTrees=600 if quick else 15000),
         }
+        # the file object (specs/SftpIO/FileObj.tla)
+        fo_dir = tlc.workdir('c12_fo_sim_out')
+        f_fo = {
+            'all': ex.submit(fileobj_tlc, 'all', ['Agree', 'SamePosition'],
+                             MaxOps=3 if quick else 4),
+            'chars': ex.submit(fileobj_tlc, 'chars', ['Agree'],
+                               PosByChars='TRUE'),
+            'apptrack': ex.submit(fileobj_tlc, 'apptrack', ['Agree'],
+                                  AppendTracks='TRUE'),
+            'noadv': ex.submit(fileobj_tlc, 'noadv', ['Agree'],
+                               ReadNoAdvance='TRUE'),
+            'crash': ex.submit(fileobj_tlc, 'crash', ['Agree'],
+                               ReadAllCrashes='TRUE'),
+            'wit1': ex.submit(fileobj_tlc, 'wit1', ['NeverAppendNone']),
+            'wit2': ex.submit(fileobj_tlc, 'wit2', ['NeverTwoWrites']),
+            'sim': ex.submit(fileobj_tlc, 'sim', [], view=False, workers=4,
+                             Widths='{1, 2, 3, 4}', Boms='{0, 2, 4}',
+                             MaxOps=4, MaxLen=16,
+                             simulate=f'file={fo_dir}/tr,num='
+                                      f'{150 if quick else 2500}',
+                             depth=6, seed=ctx.seed * 10 + 9),
+        }
         # the sparse-ranges protocol (specs/SftpIO/Sparse.tla)
         alts = [129] if quick else [127, 128, 129, 257]
         f_sparse = {
@@ -651,6 +793,7 @@ def main(ctx):
         sim_out = [f.result() for f in f_sim]
         tree_res = {k: f.result() for k, f in f_tree.items()}
         sparse_res = {k: f.result() for k, f in f_sparse.items()}
+        fo_res = {k: f.result() for k, f in f_fo.items()}
     for (name, exp, kw), res in zip(runs, results):
         ctx.require_tlc_ok(f'SftpIO {name} {kw}', res, expect_violation=exp)
 
@@ -735,6 +878,26 @@ def main(ctx):
                            sparse_res[f'alt{n_ext}'])
     sparse_replay(ctx, [sparse_res['table']] +
                   [sparse_res[f'alt{n}'] for n in alts], rnd)
+
+    # ---- 6. the SFTPClientFile state machine (position, modes, encodings) ---
+    ctx.require_tlc_ok('FileObj exhaustive', fo_res['all'])
+    for k, what in (('chars', 'position advanced by characters'),
+                    ('apptrack', 'append mode keeping a concrete offset'),
+                    ('noadv', 'read not advancing the position'),
+                    ('crash', 'read-to-end beyond the end failing (the '
+                              'pinned tree, finding ReadPastEnd)')):
+        ctx.require_tlc_ok(f'FileObj with {what} (must violate Agree)',
+                           fo_res[k], expect_violation='Agree')
+    ctx.require_tlc_ok('witness NeverAppendNone', fo_res['wit1'],
+                       expect_violation='NeverAppendNone')
+    ctx.require_tlc_ok('witness NeverTwoWrites', fo_res['wit2'],
+                       expect_violation='NeverTwoWrites')
+    if fo_res['sim'].error and fo_res['sim'].error != 'timeout':
+        raise MachineryError('simulate FileObj: ' + fo_res['sim'].error +
+                             fo_res['sim'].output[-2000:])
+    ctx.add_tlc('FileObj simulate', fo_res['sim'])
+    fileobj_replay(ctx, fo_dir, rnd)
+    tlc.cleanup('c12_fo_sim_out')
 
     ctx.assumptions += [
         'recorded transfers: linearization points are taken in the client by '
